@@ -345,7 +345,8 @@ _SHELL_META = re.compile(r"[;&|<>()`$\\*?\[\]{}~#!\n]")
 
 def split_command(cmd):
     """argv if the command needs no shell features, else None (-> /bin/sh -c)."""
-    # look for metacharacters outside single quotes
+    # look for metacharacters outside single quotes; the '\'' idiom ninja uses to
+    # put a single quote inside a quoted path is plain quoting, not a shell feature
     i, n, bare = 0, len(cmd), []
     while i < n:
         c = cmd[i]
@@ -354,6 +355,9 @@ def split_command(cmd):
             if j < 0:
                 return None
             i = j + 1
+            continue
+        if c == "\\" and i + 1 < n and cmd[i + 1] == "'":
+            i += 2
             continue
         bare.append(c)
         i += 1
@@ -603,12 +607,13 @@ class SimNinja:
             rec = {"out": e.outs[0], "rule": e.rule, "reason": dirty[e.idx], "fault": None, "fired": False,
                    "ins": list(e.ins), "rsp": mf.binding(e, "rspfile")}
             w.settle()
+            cmd = mf.binding(e, "command")
+            rec["cmd"] = cmd
             if f is not None:
                 rec["fault"] = {k: f[k] for k in ("kind", "n") if k in f}
             if f is not None and f["kind"] == "fail_before":
                 rec.update(status=["exit", 1], fired=True, reads=[], writes=[], wdigests={})
                 return rec
-            cmd = mf.binding(e, "command")
             argv = split_command(cmd)
             if argv is None:
                 argv = ["/bin/sh", "-c", cmd]
